@@ -5,16 +5,12 @@
 //! lend_from into_iter_from into_lender index_of contains`.
 //! The private fields `(k, len, is_sorted, data, pointers)` are read through the derived `Debug`.
 //! Naive oracle: the `Vec<Vec<u8>>` of pushed strings; an independent (loop-style) re-encoder for
-//! `parts`.
+//! `parts`.  About 5 % of the probes of `index_of`/`contains` contain NUL bytes (sorted and
+//! unsorted lists): such keys are never stored and must be reported absent.
 use crate::common::*;
 use lender::{ExactSizeLender, IntoLender, Lender};
 use sux::dict::{RearCodedList, RearCodedListBuilder};
 use sux::traits::{IndexedDict, IndexedSeq, IntoIteratorFrom};
-
-/// Probes containing NUL make the sorted `index_of` compare past a block head's terminator
-/// (finding: false positives / panics).  Off by default so that the stock run documents the
-/// property for NUL-free probes; the directed replay is in the report.
-const NUL_PROBES: bool = false;
 
 struct S {
     builder: RearCodedListBuilder,
@@ -421,6 +417,36 @@ fn gen_probe(ctx: &mut Ctx, strs: &[String], k: usize) -> String {
         return if ctx.rng.bool() { String::new() } else { gen_word(ctx, &[]) };
     }
     let k = k.max(1);
+    if ctx.rng.chance(1, 20) {
+        // probes containing NUL (valid `&str`, never stored): a stored string, a NUL, then the
+        // bytes that follow it in `data` / another stored string / nothing / garbage
+        ctx.stat("probe:nul");
+        let mut x = ctx.rng.pick(strs).clone();
+        match ctx.rng.below(5) {
+            0 => x.push('\0'),
+            1 => {
+                x.push('\0');
+                let y: String = ctx.rng.pick(strs).clone();
+                x.push_str(&y);
+            }
+            2 => {
+                x.push_str("\0\0");
+                x.push(gen_char(ctx));
+            }
+            3 => {
+                x = String::from("\0");
+            }
+            _ => {
+                // NUL in the middle of a stored string
+                let cs: Vec<char> = x.chars().collect();
+                let cut = ctx.rng.usize_below(cs.len() + 1);
+                x = cs[..cut].iter().collect();
+                x.push('\0');
+                x.extend(cs[cut..].iter());
+            }
+        }
+        return x;
+    }
     let head = |ctx: &mut Ctx| -> String {
         let nb = strs.len().div_ceil(k);
         strs[ctx.rng.usize_below(nb) * k].clone()
@@ -472,13 +498,6 @@ fn gen_probe(ctx: &mut Ctx, strs: &[String], k: usize) -> String {
                 cs.push(char::from_u32(c as u32 + 1).unwrap_or('b'));
             }
             cs.into_iter().collect()
-        }
-        9 if NUL_PROBES => {
-            let mut x = ctx.rng.pick(strs).clone();
-            x.push('\0');
-            let y: String = ctx.rng.pick(strs).clone();
-            x.push_str(&y);
-            x
         }
         _ => gen_word(ctx, strs),
     }
@@ -565,6 +584,8 @@ fn directed(ctx: &mut Ctx) {
             let mut s = fresh();
             let mut probes: Vec<String> = strs.clone();
             probes.extend(w(&["", "a", "aa", "ab", "abd", "abdda", "abdg", "b", "zz", "é", "\u{1}", "€ur", "€urop"]));
+            // keys containing NUL: never stored; must not be confused with `head NUL next-entry`
+            probes.extend(w(&["\0", "a\0", "a\0b", "a\0a", "aa\0", "b\0\0x", "abc\0ab", "x\0x", "\0a", "é\0ê"]));
             let idxs: Vec<usize> = (0..n + 3).chain([usize::MAX]).collect();
             run_list(ctx, &mut s, k, strs, &probes, &idxs);
             all_iters(ctx, &mut s, n);
